@@ -177,7 +177,8 @@ module.exports = {
       })
     } else {
       js = structJobs(spec, ctx).map((j, i) => {
-        const v = VERBOSITIES[(i + ctx.seed) % VERBOSITIES.length]
+        // the breakdown is only produced (and checked) under DEBUG: every other job runs with it, the rest rotate through the spellings
+        const v = i % 2 === 0 ? 'DEBUG' : VERBOSITIES[(i + ctx.seed) % VERBOSITIES.length]
         const c = Object.assign({}, j.config, v === undefined ? {} : { telemetryVerbosity: v })
         if (v === undefined) delete c.telemetryVerbosity
         return Object.assign({}, j, { config: c, cfgKey: j.cfgKey + '|v' + String(v), cfgName: j.cfgName + ',verbosity=' + v })
